@@ -25,6 +25,7 @@ type irStmt struct {
 	HasTag  bool       `json:"tag,omitempty"`
 	Results int        `json:"results,omitempty"` // closure
 	Ret     bool       `json:"ret,omitempty"`     // return with value
+	Name    string     `json:"name,omitempty"`    // define: variable name
 }
 
 type irClause struct {
@@ -60,9 +61,16 @@ func (g *irGen) list(d, n int, inLoop, inBreakable bool) []*irStmt {
 	return l
 }
 
+var irVarCounter int
+
 func (g *irGen) simple() *irStmt {
 	ks := []string{"assign", "inc", "send", "call", "go", "defer", "define", "empty", "assign", "call"}
-	return &irStmt{K: ks[g.r.Intn(len(ks))]}
+	s := &irStmt{K: ks[g.r.Intn(len(ks))]}
+	if s.K == "define" {
+		irVarCounter++
+		s.Name = fmt.Sprintf("v%d", irVarCounter)
+	}
+	return s
 }
 
 func (g *irGen) stmt(d int, inLoop, inBreakable bool) *irStmt {
@@ -281,7 +289,7 @@ func (s *irStmt) src(b *strings.Builder, ind string, fn *irFunc) {
 	case "defer":
 		w("defer f()")
 	case "define":
-		w("var v int = x")
+		w("var %s int = x", s.Name)
 	case "empty":
 		w(";")
 	case "panic":
@@ -499,15 +507,16 @@ func labelEvents(l []*irStmt, defs, uses *[]string) {
 // ---------- real builder ----------
 
 type irBuild struct {
-	pkg    *gogen.Package
-	cb     *gogen.CodeBuilder
-	errs   []string
-	labels map[string]*gogen.Label
-	placed map[string]bool
-	after  func(op string) // observation hook (C16)
-	fn     *irFunc
-	panicV types.Object
-	nvar   int
+	pkg     *gogen.Package
+	cb      *gogen.CodeBuilder
+	errs    []string
+	labels  map[string]*gogen.Label
+	placed  map[string]bool
+	after   func(op string) // observation hook (C16)
+	balance func(kind string, ok bool)
+	fn      *irFunc
+	panicV  types.Object
+	nvar    int
 }
 
 var irImporter types.Importer
@@ -589,6 +598,19 @@ func (b *irBuild) cond() {
 }
 
 func (b *irBuild) stmt(s *irStmt, fn *irFunc) {
+	if b.balance != nil {
+		l0, sc0, f0 := b.cb.InternalStack().Len(), b.cb.Scope(), b.cb.Func()
+		defer func() {
+			if e := recover(); e != nil {
+				panic(e)
+			}
+			b.balance(s.K, l0 == b.cb.InternalStack().Len() && sc0 == b.cb.Scope() && f0 == b.cb.Func())
+		}()
+	}
+	b.stmt1(s, fn)
+}
+
+func (b *irBuild) stmt1(s *irStmt, fn *irFunc) {
 	cb := b.cb
 	switch s.K {
 	case "assign":
@@ -632,7 +654,7 @@ func (b *irBuild) stmt(s *irStmt, fn *irFunc) {
 		}
 	case "define":
 		b.nvar++
-		cb.NewVarStart(types.Typ[types.Int], "v")
+		cb.NewVarStart(types.Typ[types.Int], s.Name)
 		b.op("InitStart")
 		cb.Val(b.ref("x"))
 		b.op("Val")
@@ -728,7 +750,11 @@ func (b *irBuild) stmt(s *irStmt, fn *irFunc) {
 			b.op("IncDec")
 		}
 		cb.End()
-		b.op("Close:for")
+		if s.HasPost {
+			b.op("Close:forpost")
+		} else {
+			b.op("Close:for")
+		}
 	case "range":
 		cb.ForRange("_", "e")
 		b.op("Open:range")
@@ -849,4 +875,106 @@ func (b *irBuild) stmt(s *irStmt, fn *irFunc) {
 	default:
 		panic("irBuild: " + s.K)
 	}
+}
+
+// ---------- Coq (C16 syntax) ----------
+
+func c16List(l []*irStmt, placed map[string]bool, rv bool) string {
+	s := "CNil"
+	items := make([]string, len(l))
+	for i, x := range l { // placement of labels is decided in program order
+		items[i] = x.c16(placed, rv)
+	}
+	for i := len(l) - 1; i >= 0; i-- {
+		s = "(CCons " + items[i] + " " + s + ")"
+	}
+	return s
+}
+
+func (s *irStmt) c16(placed map[string]bool, rv bool) string {
+	switch s.K {
+	case "assign":
+		return "CAssign"
+	case "inc":
+		return "CInc"
+	case "send":
+		return "CSend"
+	case "call":
+		return "CCall"
+	case "go":
+		return "CGo"
+	case "defer":
+		return "CDefer"
+	case "define":
+		return "CDefine"
+	case "empty":
+		return "CEmpty"
+	case "panic":
+		return "CPanic"
+	case "return":
+		return "(CReturn " + coqBool(rv) + ")"
+	case "break", "continue", "goto", "fallthrough":
+		return "CBranch"
+	case "labeled":
+		p := false
+		if placed != nil && !placed[s.Label] {
+			placed[s.Label] = true
+			p = true
+		}
+		return "(CLabeled " + coqBool(p) + " " + s.Body[0].c16(placed, rv) + ")"
+	case "block":
+		return "(CBlock " + c16List(s.Body, placed, rv) + ")"
+	case "if":
+		body := c16List(s.Body, placed, rv)
+		e := "ENone"
+		if s.Else != nil {
+			if s.Else.K == "if" {
+				e = "(EIf " + s.Else.c16(placed, rv) + ")"
+			} else {
+				e = "(EBlock " + c16List(s.Else.Body, placed, rv) + ")"
+			}
+		}
+		return "(CIf " + body + " " + e + ")"
+	case "for":
+		return "(CFor " + coqBool(s.HasCond) + " " + coqBool(s.HasPost) + " " + c16List(s.Body, placed, rv) + ")"
+	case "range":
+		return "(CRange " + c16List(s.Body, placed, rv) + ")"
+	case "switch", "tswitch", "select":
+		items := make([]string, len(s.Clauses))
+		for i, c := range s.Clauses {
+			items[i] = c16List(c.Body, placed, rv)
+		}
+		cs := "CCNil"
+		for i := len(s.Clauses) - 1; i >= 0; i-- {
+			cs = "(CCCons " + coqBool(s.Clauses[i].Default) + " " + items[i] + " " + cs + ")"
+		}
+		switch s.K {
+		case "switch":
+			return "(CSwitch " + coqBool(s.HasTag) + " " + cs + ")"
+		case "tswitch":
+			return "(CTSwitch " + cs + ")"
+		}
+		return "(CSelect " + cs + ")"
+	case "closure":
+		return "(CClosure " + c16List(s.Body, nil, s.Results > 0) + ")"
+	}
+	panic("c16: " + s.K)
+}
+
+var c16OpCode = map[string]string{
+	"Val": "OPush", "VarRef": "OPush", "Typ": "OPush", "None": "OPush",
+	"BinaryOp": "OBinary", "UnaryOp": "OUnary", "Call0": "(OCall 0)", "Call1": "(OCall 1)",
+	"Assign1": "(OStmt 2)", "IncDec": "(OStmt 1)", "Send": "(OStmt 2)", "Go": "(OStmt 1)", "Defer": "(OStmt 1)",
+	"Return1": "(OStmt 1)", "Return0": "(OStmt 0)", "EndInit1": "(OStmt 1)", "EndStmt": "OEndStmt",
+	"InitStart": "ONop", "Label": "ONop", "Branch": "ONop", "NewFunc": "ONop", "NewClosure": "ONop",
+	"Open:block": "OOpen", "Open:if": "OOpen", "Open:for": "OOpen", "Open:range": "OOpen", "Open:switch": "OOpen",
+	"Open:case": "OOpen", "Open:tswitch": "OOpen", "Open:tcase": "OOpen", "Open:select": "OOpen", "Open:comm": "OOpen",
+	"BodyStart": "OOpenFn", "Open:closure": "OOpenFn",
+	"Then:if": "OThenOpen", "Then:for": "OThenOpen",
+	"Then:switch": "OThenPop", "Then:tswitch": "OThenPop", "Then:range": "OThenPop",
+	"Then:case": "OThenAll", "Then:tcase": "OThenAll", "Then:comm": "ONop",
+	"Else": "OElse", "Post": "OClose", "Close:if": "OClose2", "Close:for": "OClose2", "Close:forpost": "OClose",
+	"Close:block": "OClose", "Close:range": "OClose", "Close:switch": "OClose", "Close:case": "OClose",
+	"Close:tswitch": "OClose", "Close:tcase": "OClose", "Close:select": "OClose", "Close:comm": "OClose",
+	"Close:closure": "OCloseFnPush", "FuncEnd": "OCloseFn",
 }
